@@ -122,6 +122,7 @@ type Driver struct {
 	Budget   func(tier string) time.Duration
 	Assume   []string
 	Serial   bool // single worker only
+	Env      func(workerDir string, shard int) []string // extra environment for the workers
 	PostProc func(merged *Result)
 }
 
@@ -310,6 +311,9 @@ func parent(d *Driver, tier string) int {
 			out := filepath.Join(dir, fmt.Sprintf("w%d.json", i))
 			cmd := exec.Command(self, "-prop", d.Prop, "-tier", tier, "-shard", strconv.Itoa(i), "-of", strconv.Itoa(n), "-out", out)
 			cmd.Env = append(os.Environ(), "GOMAXPROCS=2", "VERIF_SCRATCH="+filepath.Join(dir, fmt.Sprintf("s%d", i)))
+			if d.Env != nil {
+				cmd.Env = append(cmd.Env, d.Env(dir, i)...)
+			}
 			cmd.Dir = dir
 			logf, _ := os.Create(filepath.Join(dir, fmt.Sprintf("w%d.log", i)))
 			cmd.Stdout = logf
